@@ -40,3 +40,14 @@ CLAIMED["C14"] = (
     "Coq proof by induction over lines (conservation, locality) and permutation argument over pairwise-disjoint recognisers + per-run tie + vm_compute correspondence",
     "Theorems C14_conservation/C14_count (every line yields exactly one datum of one kind or one warning), C14_local/C14_append/C14_data_unchanged (an unparsable line inserted anywhere adds exactly one warning and changes nothing else), C14_order_indep (pairwise disjoint kinds => outcome independent of the order tried); disjointness for all strings is C07_disjoint / C08_disjoint.",
     MODEL_NOTE + REGEX_NOTE)
+FLOAT_NOTE = (" Float theorems go through Flocq (binary64 as Flocq's executable binary_float, round-to-nearest-even) and Coq's classical real numbers; the Interval tactic used in the "
+              "error analysis brings in the standard library's primitive 63-bit integer axioms (Uint63.*), all listed in the evidence.")
+CLAIMED["C01"] = (
+    "Coq/Flocq proof: per-segment float error analysis (4 IEEE operations + CPython's timedelta(seconds=float) rounding) and induction over the tempo segments + per-run vm_compute correspondence judged against exact rational time",
+    "Theorems dur_acc (one segment is within 1/2 us + 1 ns of k*60/(BPM*resolution) for all n in 1..10^9, resolution < 2^53, ticks < 2^53, times <= 10^6 s), built_tempo_wf/built_matches (every parsed tempo list chains these segments), "
+    "C01_query (the public query, any admissible hint: within (segments traversed)*(1/2 us + 1 ns) of the exact time, index = governing tempo), C01_tick0 (tick 0 is exactly 0), C01_tempo_events, C01_stored (every event whose stored time is the un-hinted query, which C11_chart proves for all event kinds and tracks).",
+    MODEL_NOTE + FLOAT_NOTE + " Interpretation I1: the nanosecond of float slack per segment is part of the bound (a bound of exactly 1/2 us is false for any double-precision implementation near rounding ties).")
+CLAIMED["C12"] = (
+    "Coq/Flocq proof: monotonicity of the four float operations and of CPython's timedelta rounding (no accuracy needed), induction over the chained tempo list; strictness from the accuracy lemma + per-run vm_compute correspondence",
+    "Theorems dur_mono/dur_nonneg (a segment's duration is monotone in the tick count for EVERY tempo and resolution, sub-microsecond ticks included), C12_mono (all well-formed tempo lists, all pairs a <= b), C12_strict (n*resolution <= 3*10^10 at every tempo), C12_equal_ticks, C12_events (events of any tracks), C12_note (end never before start), C12_chart (through from_file).",
+    MODEL_NOTE + FLOAT_NOTE)
